@@ -4,6 +4,8 @@ import (
 	"bufio"
 	"bytes"
 	"compress/zlib"
+	"crypto/aes"
+	"crypto/cipher"
 	"errors"
 	"fmt"
 	"io"
@@ -76,6 +78,79 @@ type Wire struct {
 	Chunk func() int
 
 	ReadTimeout time.Duration
+
+	enc *cfb8 // write side cipher (nil: plaintext)
+}
+
+// cfb8 is AES/CFB8 from its definition: one block encryption per byte, the shift register holds the
+// last 16 ciphertext bytes and starts as the IV (Minecraft uses the shared secret as key and IV).
+type cfb8 struct {
+	b   cipher.Block
+	reg [16]byte
+	dec bool
+}
+
+func newCFB8(secret []byte, dec bool) (*cfb8, error) {
+	if len(secret) != 16 {
+		return nil, errors.New("shared secret must be 16 bytes")
+	}
+	b, err := aes.NewCipher(secret)
+	if err != nil {
+		return nil, err
+	}
+	c := &cfb8{b: b, dec: dec}
+	copy(c.reg[:], secret)
+	return c, nil
+}
+
+func (c *cfb8) xor(p []byte) {
+	var o [16]byte
+	for i, x := range p {
+		c.b.Encrypt(o[:], c.reg[:])
+		y := x ^ o[0]
+		ct := y
+		if c.dec {
+			ct = x
+		}
+		copy(c.reg[:], c.reg[1:])
+		c.reg[15] = ct
+		p[i] = y
+	}
+}
+
+type decReader struct {
+	r io.Reader
+	c *cfb8
+}
+
+func (d *decReader) Read(p []byte) (int, error) {
+	n, err := d.r.Read(p)
+	d.c.xor(p[:n])
+	return n, err
+}
+
+// EnableEncryption switches both directions to AES/CFB8 with the shared secret. It must be called
+// when nothing is buffered (right after the EncryptionResponse was written).
+func (w *Wire) EnableEncryption(secret []byte) error {
+	dec, err := newCFB8(secret, true)
+	if err != nil {
+		return err
+	}
+	enc, err := newCFB8(secret, false)
+	if err != nil {
+		return err
+	}
+	w.rmu.Lock()
+	if w.br.Buffered() != 0 {
+		w.rmu.Unlock()
+		return errors.New("bytes buffered while enabling encryption")
+	}
+	w.br = bufio.NewReaderSize(&decReader{w.C, dec}, 1<<16)
+	w.rmu.Unlock()
+	w.wmu.Lock()
+	w.enc = enc
+	w.wmu.Unlock()
+	return nil
 }
 
 // NewWire wraps a connection; compression is off.
@@ -224,6 +299,9 @@ func (w *Wire) WritePayloads(ps [][]byte) error {
 			continue
 		}
 		buf = append(buf, Frame(p, w.thrW)...)
+	}
+	if w.enc != nil {
+		w.enc.xor(buf)
 	}
 	_ = w.C.SetWriteDeadline(time.Now().Add(120 * time.Second))
 	for len(buf) > 0 {
